@@ -675,7 +675,11 @@ func (g *wgen) group(s *scanSpec, name string, idx int, others []string) {
 		}
 	}
 	aws := defaultAwsOracle()
-	if g.cfg.Fleet && g.p(0.5) {
+	hasFleet := false
+	for _, c := range s.Cloud {
+		hasFleet = hasFleet || c.Template != ""
+	}
+	if g.cfg.Fleet && !hasFleet && g.p(0.5) { // at most one fleet group per world: each blocks the scan for a second or more
 		gg.fleet = true
 		a.Template, a.Lifecycle, a.NTypes = "lt-"+name, pickS(rng, "", "on-demand", "spot"), rng.Intn(3)
 		aws.VPC = pickS(rng, "s1", "s1,s2", "s1,s2,s3")
